@@ -92,7 +92,12 @@ let run (lines : string list) =
           let ((POut (stt, v), s'), a') = ok (pq_step !cmp s o a0) in
           a := a'; st := Some s';
           (* ideal bag *)
-          let refused = (a'.nreq <> a0.nreq) && (a'.next_id = a0.next_id) in
+          (* a buffer that cannot grow (grown capacity not larger - D11 - or byte size not representable): no
+             allocator can provide it and, since the byte-size repair, the library does not even ask *)
+          let cant_grow = N.eqb s.pq_size s.pq_cap &&
+            (let p = N.div (N.mul s.pq_cap s.pq_num) s.pq_den in
+             N.leb p s.pq_cap || N.ltb (N.div (n_of_string "0xffffffffffffffff") (n_of_int 8)) p) in
+          let refused = ((a'.nreq <> a0.nreq) && (a'.next_id = a0.next_id)) || (cant_grow && (match o with PPush _ -> true | _ -> false)) in
           let (ist, ip) = (match o with
             | PPush x ->
                 if refused then (CC_ERR_ALLOC, None) else (bag := x :: !bag; ipushed := x :: !ipushed; (CC_OK, None))
